@@ -25,6 +25,7 @@ RULE = ('(a) token soups: multi-line texts of statement keywords, expression tok
         'logical line is deleted; a deleted closing keyword must be reported. Non-trivial: an error whose fault is not at column 1 of line 1 / '
         'an elided long line / a mutant. Distinct by text.')
 RULE += ' Also: lines that hold only the continuation character (inside, before and at the end of input), non-ASCII call names next to the fault, the unmutated generated program must be accepted; coverage-guided atheris (libFuzzer) shards run the same oracle. Round 5: pairs of lines of the same shape and fault, one built from repeating text, one from distinct names, must get the same diagnostic position; digit-like characters that are not decimal digits as right-hand sides.'
+RULE += ' Round 7: include-shaped lines with empty / blank / unterminated targets and both spellings in one line.'
 ASSUMPTIONS = [
     'the exact error wording and which of two faults is reported first are not asserted',
     'lines are at most 400 characters (a chain of ~1000 operators exhausts the interpreter recursion limit; outside the quantifier)',
